@@ -74,6 +74,11 @@ func introspectRemoteSchema(factory QueryerFactory, url string) (*ast.Schema, er
 		return nil, err
 	}
 
+	// a service may answer the introspection query with `data: null`
+	if res == nil {
+		return nil, errors.New("could not find the root query")
+	}
+
 	remoteSchema := res.Schema
 
 	schema := &ast.Schema{
